@@ -166,6 +166,8 @@ def main(tier):
     fixrel.c10(chk, tier)
     import typegraph
     typegraph.run(chk, tier, "C10")
+    import pathspec
+    pathspec.run(chk, tier, "C10")
     if docs:
         chk.sample({"doc": docs[0]["doc"], "permutation": "reverse"})
     chk.rule = "pairs (document, permutation of its top-level blocks); distinct = distinct pairs; documents of >= 2 blocks"
@@ -178,6 +180,11 @@ def replay(path):
     if rp.get("kind") in ("fxpair", "fxban"):
         import fixrel
         return fixrel.replay("C10", rp)
+    if rp.get("kind") == "pathspec":
+        import pathspec
+        chk = Check("C10", "quick")
+        pathspec.replay(chk, "C10", rp)
+        return chk.finish()
     if rp.get("kind") == "typegraph":
         import typegraph
         chk = Check("C10", "quick")
